@@ -19,11 +19,11 @@ S_NOTE = ("Trusted: symonnx operator semantics (mine; validated at every run aga
 CLAIMED = {
     "C01": dict(
         category="translation_validation", design_ref="§5 C01", engine="S",
-        text="For each program (hand-written core exhausting the interaction shapes + seeded random typed grammar) and input-shape assignment, the real eager path is executed over symbolic tensors (forking on tensor->bool/int), the protos from the real converter are interpreted symbolically, and z3 decides per eager path that outputs agree for ALL input values; both the to_model_proto and the to_function_proto leg. Structure enumerated, values decided. Side verdict (structural): every operator an eager path executes must occur in the exported graph; a difference is replayed on the real eager code / onnxruntime with NaN and +-inf inputs (the only place where e.g. Not(Greater) and LessOrEqual differ).",
+        text="For each program (hand-written core exhausting the interaction shapes + seeded random typed grammar) and input-shape assignment, the real eager path is executed over symbolic tensors (forking on tensor->bool/int), the protos from the real converter are interpreted symbolically, and z3 decides per eager path that outputs agree for ALL input values; both the to_model_proto and the to_function_proto leg. Structure enumerated, values decided. Side verdict (structural): every operator an eager path executes must occur in the exported graph, and every call of a non-schema domain must find its FunctionProto in the model; a difference is replayed on the real eager code / onnxruntime with NaN and +-inf inputs (the only place where e.g. Not(Greater) and LessOrEqual differ).",
         note=S_NOTE, technique="translation validation: symbolic ONNX semantics + forking symbolic eager execution, z3 equivalence per path, ORT/eager replay"),
     "C02": dict(
         category="other", design_ref="§5 C02", engine="X+S",
-        text="(a) solver: CrossHair/z3 inductive step of the converter's name allocator from an arbitrary pre-state (any subset of a 6-name collision table, counter 0..2, any candidate): fresh, recorded, monotone - covers allocation histories of any length over those names. (b) enumeration (labelled so in evidence): every FunctionProto/ModelProto of the C01 corpus passes an independent structural checker (SSA, scoping, subgraph outputs, outputs distinct / not inputs, one import per used domain) and onnx.checker strict on typed variants (output types taken from the symbolic eager run); near-miss programs must be refused with a source position.",
+        text="(a) solver: CrossHair/z3 inductive step of the converter's name allocator from an arbitrary pre-state (any subset of a 6-name collision table, counter 0..2, any candidate): fresh, recorded, monotone - covers allocation histories of any length over those names. (b) enumeration (labelled so in evidence): every FunctionProto/ModelProto of the C01 corpus passes an independent structural checker (SSA, scoping, subgraph outputs, outputs distinct / not inputs, one import per used domain, every call resolved to an operator of a known domain or a model-local function) and onnx.checker strict on typed variants (output types taken from the symbolic eager run); near-miss programs must be refused - an accepted near-miss is itself a violation - with a source position.",
         note="Trusted: CrossHair models; my structural checker; onnx.checker. Part (b) decides nothing beyond the corpus; the allocator lemma is bounded by the table and counter range.",
         technique="symbolic execution (CrossHair+z3) inductive-step lemma + structural checking of emitted protos over a generated corpus"),
     "C03": dict(
@@ -36,27 +36,27 @@ CLAIMED = {
         note=S_NOTE + " Side verdicts are enumeration, not solver verdicts.", technique="translation validation with symbolic override values for initializer-inputs; structural side verdicts per run"),
     "C05": dict(
         category="translation_validation", design_ref="§5 C05", engine="S",
-        text="For every rule exported by rules.common (all 53 encoded; every rule fires on some host except dropout_inference_rule, which is shown vacuous from the installed schemas at every run) and every host of the rule's families (instances and near-misses over operand ranks 0-3, [1]/[1,1] constants, inverted/eps/almost-1 constants, three constant forms incl. overridable graph inputs, attribute variants, zero-size dims): the single rule is applied with the real RewriteRuleSet; where it fires symonnx interprets host and result and z3 decides equality of all outputs for ALL input values (forward-error bound for recomputed float constants); validity for the declared opset is part of the schema-keyed interpretation.",
-        note=S_NOTE + " rules.fusion (sqrt/trig identities) is outside the claim; QLinearConv is encoded for concrete scales only; float16 rounding is not modelled (floats are reals).",
+        text="For every rule exported by rules.common (all 53 encoded; every rule fires on some host except dropout_inference_rule, which is shown vacuous from the installed schemas at every run) and every host of the rule's families (instances and near-misses over operand ranks 0-3, [1]/[1,1] constants, inverted/eps/almost-1 constants, three constant forms incl. overridable graph inputs, attribute variants, zero-size dims, rank-raising one-element constants, ScatterND reductions, sequence ops at opsets 13/17/18): the single rule is applied with the real RewriteRuleSet; where it fires symonnx interprets host and result and z3 decides equality of all outputs for ALL input values (forward-error bound for recomputed float constants); validity for the declared opset is part of the schema-keyed interpretation. Symbolic-declaration leg: hosts of the families whose rules read declared shapes are re-declared in nine modes (shared / distinct / unnamed symbols, leading dim only, distinct symbols beside a static 1, anonymous value_info dims), the rule is applied once to the declared model and, where it fires, original and result are compared by z3 for every binding of <=4 symbols over {0,1,2,3,7}.",
+        note=S_NOTE + " Bindings of the symbolic leg are enumerated, values under each binding decided by z3. rules.fusion (sqrt/trig identities) is outside the claim; QLinearConv is encoded for concrete scales only; float16 rounding is not modelled (floats are reals).",
         technique="translation validation per rule and host: symbolic ONNX semantics, z3 equivalence for all inputs, onnxruntime replay"),
     "C09": dict(
         category="translation_validation", design_ref="§5 C09", engine="S",
-        text="Host models (shape-computation models + rule hosts) are re-declared with symbolic input dims (shared names, distinct names for equal sizes, unnamed, leading-dim only); optimize() runs once per declared model; for every binding of <=3 symbols to {0,1,2,3,7} symonnx interprets original and optimized model at the bound shapes and z3 decides equality for all input values; a binding on which exactly one model fails is a counterexample (same accepted inputs).",
+        text="Host models (shape-computation models + rule hosts) are re-declared with symbolic input dims (nine modes: shared names, distinct names for equal sizes, unnamed, leading-dim only, distinct symbols beside a static 1, anonymous value_info dims); optimize() runs once per declared model; for every binding of <=3 symbols to {0,1,2,3,7} symonnx interprets original and optimized model at the bound shapes and z3 decides equality for all input values; a binding on which exactly one model fails is a counterexample (same accepted inputs).",
         note=S_NOTE + " Bindings are enumerated over {0,1,2,3,7}; values under each binding are decided by z3.",
         technique="translation validation under enumerated shape bindings: symbolic ONNX semantics, z3 equivalence, onnxruntime replay"),
     "C06": dict(
         category="other", design_ref="§5 C06", engine="X",
-        text="CrossHair/z3 symbolic execution of the real Pattern.match on nine structure classes; host leaves are symbolic (op-type and domain indices over an alphabet with 'other', unbounded attribute ints, constant value from an edge table, sharing / extra-consumer / graph-output booleans); verdict and bindings must equal a declarative spec of 'is an instance' (incl. commute=True vs plain vs non-commutative ops, allow_other_inputs/attributes in all three settings, OR alternatives with tag, multi-output anchoring, removability). Structure classes and wiring are enumerated.",
-        note="Trusted: CrossHair models; my per-class specs (validated by concrete sweeps); const_value stub. Host wiring beyond the nine classes is outside the claim.",
+        text="CrossHair/z3 symbolic execution of the real Pattern.match on sixteen structure classes; host leaves are symbolic (op-type and domain indices over an alphabet with 'other', unbounded attribute ints, constant value from an edge table, sharing / extra-consumer / graph-output booleans); verdict and bindings must equal a declarative spec of 'is an instance' (incl. commute=True vs plain vs non-commutative ops, allow_other_inputs/attributes in all three settings, OR alternatives with tag and backtracking ORs that share a variable or a node pattern with their context, optional / typed / reference attributes, one of two outputs, multi-output anchoring, removability). Structure classes and wiring are enumerated.",
+        note="Trusted: CrossHair models; my per-class specs (validated by concrete sweeps); const_value stub. Host wiring beyond the sixteen classes is outside the claim; one recorded region (a backtracking OR commits to its first local success).",
         technique="symbolic execution (CrossHair+z3) of the real matcher against declarative instance specs, vacuity twins"),
     "C07": dict(
         category="translation_validation", design_ref="§5 C07", engine="S",
-        text="Ten generated rules (re-emission via a different op, operand swap, double transpose/negation, x*1, two-output pattern, replacement with a new initializer, as_function, remove_nodes=False) whose p==r is itself proved on the k=1 host; hosts with k<=3 separated/adjacent instances, matched outputs that are graph outputs, intermediates with extra consumers, instances inside If bodies (depth<=2), Loop bodies and model-local functions, initializer name clashes. symonnx + z3 decide [[M]] == [[rewrite(M,[rule])]] for all inputs; validity, signature, unmatched-node multiset and minimum application count are side verdicts.",
+        text="Seventeen generated rules (re-emission via a different op, operand swap, double transpose/negation, x*1 - also with a replacement that returns the pattern input itself -, two-output and two-root patterns with consumers between the matched nodes, replacement with a new initializer, as_function, remove_nodes=False) whose p==r is itself proved on the k=1 host; hosts with k<=3 separated/adjacent instances, matched outputs that are graph outputs, intermediates with extra consumers, instances inside If bodies (depth<=2), Loop bodies and model-local functions, initializer name clashes. symonnx + z3 decide [[M]] == [[rewrite(M,[rule])]] for all inputs; validity, signature, unmatched-node multiset and minimum application count are side verdicts.",
         note=S_NOTE + " Rules must be terminating (a replacement containing its own pattern makes the rewriter loop: property of the rule). Metadata merging unchecked.",
         technique="translation validation of generated rewrite rules on generated hosts: symbolic ONNX semantics, z3 equivalence, structural side verdicts"),
     "C10": dict(
         category="translation_validation", design_ref="§5 C10", engine="S",
-        text="Matrix source/target 18..25 x entry {ir.Model, ModelProto} x fallback {True, False} over models with the three adapter ops (GroupNormalization exact, DFT/GridSample uninterpreted over canonical attributes), unchanged ops, If-subgraphs, model-local functions, initializer-inputs. symonnx interprets each side under the opset it DECLARES (schema arity/attribute validation), so a half-converted model is a semantic counterexample; z3 decides equality for all inputs; declared version, function opsets, signature, initializers are side verdicts.",
+        text="Matrix source/target 18..25 x entry {ir.Model, ModelProto} x fallback {True, False} over models with the three adapter ops (GroupNormalization exact, DFT/GridSample uninterpreted over canonical attributes), unchanged ops, If-subgraphs, model-local functions, initializer-inputs; plus legacy sources 10/11/13 with attribute-form Pad/Squeeze/Unsqueeze/ReduceSum/Split/ReduceMean converted to 18/21 (outside the property's quantifier, inside its statement: a refusal must leave the old form under the old declaration). symonnx interprets each side under the opset it DECLARES (schema arity/attribute validation), so a half-converted model is a semantic counterexample; z3 decides equality for all inputs; declared version, function opsets, signature, initializers are side verdicts.",
         note=S_NOTE, technique="translation validation keyed by declared opset: symbolic ONNX semantics, z3 equivalence"),
     "C12": dict(
         category="other", design_ref="§5 C12", engine="Z+X",
@@ -65,20 +65,20 @@ CLAIMED = {
         technique="z3 floating-point/bit-vector queries over pipeline models extracted from the real front ends + CrossHair differential lemma + registry enumeration"),
     "C13": dict(
         category="translation_validation", design_ref="§5 C13", engine="S+X",
-        text="For typed models from the script corpus (incl. adversarially renamed values: dots, digits, keywords, names colliding after clean-up) and tensor-typed generated models x export options: the generated source must compile, decorate, keep the signature, and symonnx + z3 decide [[roundtrip]] == [[original]] for ALL inputs (initializer-inputs symbolic). (X) CrossHair lemmas on the naming helpers (identifier-ness, idempotence, injectivity and stability of the short mapper and of the unique-name mapper over 3/4 requests from tables with triple collisions and generated-suffix names, attribute-conflict renamer).",
-        note=S_NOTE + " skip_initializers output is checked for syntax only.", technique="translation validation of the proto2python round trip: symbolic ONNX semantics, z3 equivalence; CrossHair lemmas on helpers"),
+        text="For typed models from the script corpus (incl. adversarially renamed values: dots, digits, keywords, names colliding after clean-up) operator tables (every operator the exporter may render in infix form, with attributes; infix-only graphs), constants in both operand positions, FunctionProtos with attribute parameters, models with model-local functions (the FunctionProtos of the generated functions are attached by hand; that the default to_model_proto() does not carry them is a recorded finding) and tensor-typed generated models x export options: the generated source must compile, decorate, keep the signature, and symonnx + z3 decide [[roundtrip]] == [[original]] for ALL inputs (initializer-inputs symbolic). (X) CrossHair lemmas on the naming helpers (identifier-ness, idempotence, injectivity and stability of the short mapper and of the unique-name mapper over 3/4 requests from tables with triple collisions and generated-suffix names, attribute-conflict renamer).",
+        note=S_NOTE + " skip_initializers: the generated make_model() is called with the original values of the skipped initializers.", technique="translation validation of the proto2python round trip: symbolic ONNX semantics, z3 equivalence; CrossHair lemmas on helpers"),
     "C14": dict(
         category="other", design_ref="§5 C14", engine="X",
-        text="(a) hash randomisation as a schedule: converter/analysis re-executed with every set iteration order chosen by CrossHair; FunctionProto bytes must not depend on it; confirmed with real PYTHONHASHSEED subprocesses. (b) histories as arbitrary pre-state: per-match fields of rule singletons (AST-discovered each run) havocked with symbolic values before rewrite(); bytes must equal the fresh-object run. (d) histories of whole transformations: a symbolic history (1 model quick, 2 thorough) and a symbolic target from a 30-model table (10 operator kinds x opsets 11/13/18) go through optimize / convert_version / proto2python in one process; the target bytes must equal the fresh-process baseline (subprocess per pair); indices concretised by comparison forks, the transformation runs concretely. (c) concrete probe: repeated to_model_proto, post-decoration rebinding of globals.",
+        text="(a) hash randomisation as a schedule: converter/analysis re-executed with every set iteration order chosen by CrossHair; FunctionProto bytes must not depend on it; confirmed with real PYTHONHASHSEED subprocesses. (b) histories as arbitrary pre-state: per-match fields of rule singletons (AST-discovered each run) havocked with symbolic values before rewrite(); bytes must equal the fresh-object run. (d) histories of whole transformations: a symbolic history (1 model quick, 2 thorough) and a symbolic target from a 36-model table (12 operator kinds, one for every version-ranged evaluator of the folder's registry, x opsets 11/13/18; script sources; models that need the 19->20 / 20->21 adapters) go through optimize / convert_version / proto2python / script decoration in one process - each history in a forked child of a worker that has only imported the library, so that paths do not see each other's leftovers and a counterexample replays from its own history; the target bytes must equal the fresh-process baseline (subprocess per pair); indices concretised by comparison forks, the transformation runs concretely. (c) concrete probe: repeated to_model_proto, post-decoration rebinding and in-place mutation of globals.",
         note="Trusted: CrossHair; order cut applied in memory by vp/loader.py; <=4 schedule choices per translation; 4 rule targets. Narrow: file system / time / other processes not modelled.",
         technique="symbolic execution (CrossHair+z3) with solver-chosen set-iteration schedules, havocked singleton state and solver-partitioned transformation histories vs fresh-process baselines; PYTHONHASHSEED replay"),
     "C18": dict(
         category="translation_validation", design_ref="§5 C18", engine="S+X",
-        text="Seeded random traces through the real GraphBuilder/OpBuilder (literals in every position, _outputs, module scopes, If subgraphs capturing outer values) are shadowed by a symbolic replay that applies symonnx's rule per call with the property's own promotion rule; z3 decides [[built graph]] == replay for ALL inputs, and [[call]] == [[call_inline]] for script functions with attribute arguments. Naming: (X) nn construction histories of <=4 (quick) / 5 (thorough) steps over 10 step kinds (create list / list with children / sequential, nest, attach to a named or unnamed root, append/extend after naming, slice) are solver variables concretised by comparison forks; every Parameter must appear once as the initializer root.name + state_dict key and be the Parameter object, names unique, checker passes. Random module trees (depth<=4) and value/node naming of traces are enumeration, labelled.",
+        text="Seeded random traces through the real GraphBuilder/OpBuilder (literals in every position, inputs given by keyword, _outputs, module scopes, If subgraphs capturing outer values) are shadowed by a symbolic replay that applies symonnx's rule per call with the property's own promotion rule; z3 decides [[built graph]] == replay for ALL inputs, and [[call]] == [[call_inline]] for script functions with attribute arguments, literal arguments and calls of other script functions (every callee must be defined in the model). Naming: (X) nn construction histories of <=4 (quick) / 5 (thorough) steps over 10 step kinds (create list / list with children / sequential, nest, attach to a root that is named at construction / at the end / never and may own a parameter called like the leaves', children called directly or inside an If branch built by a sub-builder, append/extend after naming, slice) are solver variables concretised by comparison forks; every Parameter must appear once as the initializer root.name + state_dict key and be the Parameter object, names unique, checker passes. Random module trees (depth<=4), value/node naming of traces and six traces with operators of non-default domains (validity only) are enumeration, labelled.",
         note=S_NOTE, technique="translation validation of traced graphs against a symbolic shadow replay; z3 equivalence; CrossHair-partitioned construction histories for module naming; structural enumeration for names"),
     "C20": dict(
         category="other", design_ref="§5 C20", engine="X",
-        text="CrossHair/z3 symbolic execution of the real save_model_with_external_data with ir.save stubbed: which initializers are uninitialised, path shape, verbose/tqdm and whether the save faults are solver variables; refusal-before-write, single call with <basename>.data, exception propagation and object identity of the initializers are decided over all combinations. Second group: the real onnx_ir.save runs under the wrapper in a scratch directory; initializer kinds (in-memory small/large/zero-size/scalar/uint8, already external elsewhere, already external in the destination) and the index of the write-side file-system operation (open/write/flush/close) that raises OSError are solver variables concretised by comparison forks; identity, external references, bytes and serialized structure of the in-memory model afterwards, and the ir.load round trip on success, are checked per instance.",
+        text="CrossHair/z3 symbolic execution of the real save_model_with_external_data with ir.save stubbed: which initializers are uninitialised, path shape, verbose/tqdm and whether the save faults are solver variables; refusal-before-write, a single ir.save call naming a sibling data file (a bare file name other than the model's own), exception propagation and object identity of the initializers are decided over all combinations - this group runs only while a concrete probe confirms that the function still delegates to one ir.save(external_data=...) call (otherwise it is reported inconclusive and the second group decides alone). Second group: the real onnx_ir.save runs under the wrapper in a scratch directory; initializer kinds (in-memory small/large/zero-size/scalar/uint8, already external elsewhere, already external in the destination, owned by an If branch above / below the externalisation threshold) and the index of the write-side file-system operation (open/write/flush/close) that raises OSError are solver variables concretised by comparison forks; identity, external references, bytes and serialized structure of the in-memory model afterwards, and the ir.load round trip on success, are checked per instance.",
         note="Trusted: CrossHair models; group 1: ir.save replaced by a recording stub, <=3 initializers, 8 path shapes; group 2: open() proxies are the only stubs, <=2 (quick) / 3 (thorough) initializers, one fault per run, rename/fsync not used by the installed onnx_ir; the instance space is finite and explored exhaustively through solver-decided forks, the code under the forks runs concretely (protobuf / NumPy / file I/O are C boundaries).",
         technique="symbolic execution (CrossHair+z3) of the real function with a faulting stub for ir.save; solver-partitioned fault-point and tensor-kind space over the real save; vacuity twins"),
     "C11": dict(
